@@ -19,3 +19,4 @@ Definition k_flow_sync_get_key : pfun :=
       SReturn (PCall "_process_get_key_result" [(PName "resp")])
     ]
   ] |}.
+Definition k_flow_sync_get_key_defaults : list (string * pexp) := [("root_key_id", PNone); ("l0", (PInt (-1))); ("l1", (PInt (-1))); ("l2", (PInt (-1))); ("username", PNone); ("password", PNone); ("auth_protocol", (PStr [110; 101; 103; 111; 116; 105; 97; 116; 101]))].
